@@ -122,7 +122,7 @@ func jsonVal(b *strings.Builder, n *node, rs *kit.Rand) {
 			if i > 0 {
 				b.WriteString("," + sp)
 			}
-			b.WriteString(quoted(e.key) + ":" + sp)
+			b.WriteString(quotedKey(e.key, rs) + ":" + sp)
 			jsonVal(b, e.v, rs)
 		}
 		b.WriteString(sp + "}")
@@ -143,6 +143,18 @@ func yamlPlainSafe(s string) bool {
 type yamlR struct{ rs *kit.Rand }
 
 func (y yamlR) str(s string, key bool) string {
+	if key && !isASCII(s) {
+		// a key with non-ASCII letters: plain (as people write it) if it is made of letters, digits
+		// and '_' only, else quoted, now and then with \u escapes
+		if uniIdent(s) && y.rs.Chance(0.5) {
+			kit.Obs("nonascii_keys_rendered_plain_in_yaml", 1)
+			return s
+		}
+		if y.rs.Chance(0.2) && !strings.ContainsAny(s, "\n\t\\") && isPlainPrintable(s) {
+			return "'" + strings.ReplaceAll(s, "'", "''") + "'"
+		}
+		return quotedKey(s, y.rs)
+	}
 	if yamlPlainSafe(s) && (key && y.rs.Chance(0.8) || !key && y.rs.Chance(0.3)) {
 		return s
 	}
@@ -272,7 +284,8 @@ func (t *tomlR) key(s string) string {
 	if t.rs.Chance(0.2) && !strings.ContainsAny(s, "'\n\t") && isPlainPrintable(s) {
 		return "'" + s + "'"
 	}
-	return quoted(s)
+	// (bare keys are ASCII only in TOML: a key with non-ASCII letters is always quoted)
+	return quotedKey(s, t.rs)
 }
 
 func (t *tomlR) str(s string) string {
